@@ -70,11 +70,16 @@ ApplyEntry(e, h) ==
 \* ------------------------------------------------------------------ components that are rendered
 \* component kinds; "trace" / "trace2" are error traces of exceptions raised at two different source lines
 \* "parared": a paragraph using the stock tag c1 on an I/O whose formatter's style set gives c1 other attributes
-Components == {"table", "para", "parared", "labeled", "namever", "empty", "apphelp", "cmdhelp", "trace", "trace2"}
+\* "labels": ONE LabelAlignment with two aligned LabeledParagraphs, rendered as a block layout does it (align, then each
+\* paragraph) at the indentation of the I/O record; "block": ONE BlockLayout that is filled with the same paragraph and
+\* labeled paragraphs before each render - what help pages are made of
+Components == {"table", "para", "parared", "labeled", "labels", "block", "namever", "empty", "apphelp", "cmdhelp", "trace", "trace2"}
 IsTrace(c) == c \in {"trace", "trace2"}
-\* an I/O: [utf8, ansi, verb, width]   verb \in {"normal", "verbose", "debug"}, width = terminal columns
+\* an I/O: [utf8, ansi, verb, width, ind]   verb \in {"normal", "verbose", "debug"}, width = terminal columns,
+\* ind = the indentation passed to render (error traces take none, the empty line ignores it)
 \* components whose text is wrapped to the terminal width
-Wraps(c) == c \in {"table", "para", "parared", "labeled", "apphelp", "cmdhelp"}
+Wraps(c) == c \in {"table", "para", "parared", "labeled", "labels", "block", "apphelp", "cmdhelp"}
+Indents(c) == ~IsTrace(c) /\ c # "empty"
 
 VARIABLES
   \* A-layer
@@ -140,6 +145,7 @@ View(c, io, g) == [comp |-> c, ansi |-> IF c = "empty" THEN FALSE ELSE io.ansi,
                    verb |-> IF IsTrace(c) THEN io.verb ELSE "-",
                    glyphs |-> IF IsTrace(c) THEN io.utf8 ELSE TRUE,
                    width |-> IF Wraps(c) THEN io.width ELSE 0,
+                   ind |-> IF Indents(c) THEN io.ind ELSE 0,
                    snippet |-> IF IsTrace(c) /\ io.verb = "debug" THEN g ELSE TRUE]
 Shown(c, io) == View(c, io, Glyphs(c, io))
 Pure(c, io) == View(c, io, io.utf8)
